@@ -152,6 +152,7 @@ def run(ctx, rep):
     rep.floor("C12.check(producers)", len(producers), 4)
     check_viol = 0
     for f in sorted(producers, key=lambda x: x.path):
+        f = F.inlined(f, ("is_of_type", "prune", "zero", "from_compact_bits", "from_padded_bits", "finalize", "arrow"))
         who = f.impl_self.replace("simplicity::", "")
         if f.impl_self in EXCLUDED:
             rep.note("producer %s not checked: %s" % (who, EXCLUDED[f.impl_self]))
